@@ -1281,7 +1281,7 @@ fn gen_hostile_case(rng: &mut Rng) -> Vec<String> {
 }
 
 fn generate(tier: &str, rng: &mut Rng) -> Vec<Case> {
-    let scale = if tier == "thorough" { 14 } else { 1 };
+    let scale = if tier == "thorough" { 12 } else { 1 };
     let mut cases = vec![];
     let mut push = |name: String, lines: Vec<String>| cases.push(Case { name, lines });
     // all 32 open-option settings x what the name is
@@ -1307,22 +1307,22 @@ fn generate(tier: &str, rng: &mut Rng) -> Vec<Case> {
             push(format!("open/{k}/{bs}"), l);
         }
     }
-    for i in 0..700 * scale {
+    for i in 0..300 * scale {
         push(format!("rw/{i}"), gen_rw_case(rng));
     }
-    for i in 0..250 * scale {
+    for i in 0..100 * scale {
         push(format!("open-rand/{i}"), gen_open_case(rng));
     }
-    for i in 0..250 * scale {
+    for i in 0..100 * scale {
         push(format!("dir/{i}"), gen_dir_case(rng));
     }
-    for i in 0..250 * scale {
+    for i in 0..150 * scale {
         push(format!("pipe/{i}"), gen_pipe_case(rng));
     }
-    for i in 0..60 * scale {
+    for i in 0..40 * scale {
         push(format!("hostile/{i}"), gen_hostile_case(rng));
     }
-    for i in 0..6 * scale {
+    for i in 0..4 * scale {
         push(format!("fseq/{i}"), gen_fseq_case(rng));
     }
     cases
